@@ -400,11 +400,23 @@ static std::string tsan_signature(const std::string& text) {
                 s1 = line.find("/include/teakra/");
             if (s1 == std::string::npos)
                 continue;
+            // file:function, not file:line: which of several racing fields of one object TSan reports first depends on what its
+            // shadow memory still remembers, so a line-level name would split one defect into several unstable classes
             std::size_t slash = line.rfind('/', line.find(':', s1));
             std::string fl = line.substr(slash + 1);
-            std::size_t c1 = fl.find(':');
-            std::size_t c2 = c1 == std::string::npos ? c1 : fl.find_first_not_of("0123456789", c1 + 1);
-            locs.push_back(fl.substr(0, c2));
+            fl = fl.substr(0, fl.find(':'));
+            std::size_t h = line.find('#');
+            std::size_t f0 = line.find(' ', h);
+            std::size_t pstart = line.rfind(' ', s1);
+            std::string fn = (f0 != std::string::npos && pstart != std::string::npos && pstart > f0) ? line.substr(f0 + 1, pstart - f0 - 1) : "";
+            fn = fn.substr(0, fn.find('('));
+            std::size_t cc = fn.rfind("::");
+            if (cc != std::string::npos)
+                fn = fn.substr(cc + 2);
+            for (auto& ch : fn)
+                if (!isalnum((unsigned char)ch) && ch != '_')
+                    ch = '-';
+            locs.push_back(fl + ":" + (fn.empty() ? "?" : fn));
             taken = true;
         }
     }
@@ -816,7 +828,13 @@ static int cmd_worker(int argc, char** argv) {
         if (!out.ok() || (recheck_every && (i / stride) % recheck_every == 0)) {
             Outcome again = run_plan(sc, plan);
             rechecked = true;
-            if (again.hash != out.hash || again.cls != out.cls) {
+            auto is_race = [](const std::string& c) { return c.find(".data-race") != std::string::npos; };
+            // the schedule (hash) decides determinism; whether ThreadSanitizer still remembers the earlier access of a racing pair
+            // does not, so a race reported in only one of two identical executions is kept as a candidate for the fresh-process gate
+            bool same_schedule_race = again.hash == out.hash && (is_race(out.cls) || is_race(again.cls));
+            if (same_schedule_race && !is_race(out.cls))
+                out = again;
+            if (!same_schedule_race && (again.hash != out.hash || again.cls != out.cls)) {
                 std::string f = outdir + "/" + prop + "-" + std::to_string(run_seed) + ".nondet.plan";
                 write_file(f, plan.to_text());
                 report(fmt("NONDET %llu file=%s cls1=%s cls2=%s h1=%llx h2=%llx", (unsigned long long)i, f.c_str(),
